@@ -131,6 +131,7 @@ class LogStream:
     def __init__(self, name, sink=None):
         self.name = name
         self.parts = []
+        self.bparts = []   # bytes written through .buffer (forwarded task output)
         self.sink = sink
         self.buffer = _Buf(self)
         self.encoding = "utf-8"
@@ -140,6 +141,8 @@ class LogStream:
     def _log(self, kind, data):
         with self._lock:
             self.parts.append(data if kind == "b" else data.encode("utf-8"))
+            if kind == "b":
+                self.bparts.append(data)
             if kind == "t" and self.sink is not None:
                 self._line += data
                 while "\n" in self._line:
@@ -391,6 +394,7 @@ def run_cli(argv, cwd, *, vk=None, git=None, clock=None, env=None, tracer=None, 
         del subprocess._active[:]
         m["sigchld"].SigchldHelper._Instance = None
     res.stdout, res.stderr = out.getvalue(), err.getvalue()
+    res.fwd_out, res.fwd_err = b"".join(out.bparts), b"".join(err.bparts)
     res.out_text, res.err_text = out.text(), err.text()
     return res
 
